@@ -1635,6 +1635,47 @@ def run_c12(ctx):
     keep = lambda l: l if l.startswith(("R ", "E ")) else None
     correspond(ctx, res, cases, line_filter=keep, oracle=c12_oracle,
                known=lambda s, r, o: match_known("C12", s, r, o), per_proc=4)
+    # one TRANSIENT write failure (model-free; the logic is StdioModel.v / StdioFacts.v): the size limit makes one write
+    # of stdio's fail, then it is lifted: every later write, the flush, the fsync and the close succeed - the call must
+    # still report an I/O failure; without a failure it must succeed with exactly the text of config_write
+    if rc is None and not res.violations:
+        runner = ctx.runner("asan")
+        ntr = 0
+        for nset in (400, 1500):
+            text = b"".join(b"s%05d = \"%s\";\n" % (i, b"x" * (i % 37)) for i in range(nset))
+            for fs_opt in (0, 1):
+                for cap in (1, 4096, 8192, 4096 * 3, 10 ** 9):
+                    script = "\n".join(["init", "reads %s" % hx(text), "option 64 %d" % fs_opt, "write",
+                                        "writeft %s %d" % (hx(b"tr.cfg"), cap), "dump", "fs cat %s" % hx(b"tr.cfg")]) + "\n"
+                    out, status, err = runner.run_impl(script)
+                    res.evaluations += 1
+                    ntr += 1
+                    lines = out.splitlines()
+                    bad = []
+                    try:
+                        wtxt = next(l for l in lines if l.startswith("R sh"))
+                        iw = next(i for i, l in enumerate(lines) if l.startswith("L xfsz "))
+                        fired = int(lines[iw].split(" ")[2])
+                        rv = lines[iw - 1]
+                        et = next(l for l in lines[iw:] if l.startswith("E ")).split(" ")[1]
+                        cat = [l for l in lines if l.startswith("R s")][-1]
+                        if status != "ok":
+                            bad.append("process status %s" % status)
+                        if fired and rv != "R i0":
+                            bad.append("one write failed (file size limit %d, lifted afterwards) but config_write_file returned %s" % (cap, rv))
+                        if fired and rv == "R i0" and et != "1":
+                            bad.append("the call failed but the error type is %s, not CONFIG_ERR_FILE_IO" % et)
+                        if not fired and (rv != "R i1" or cat != wtxt):
+                            bad.append("no write failed but the call returned %s / the file differs from config_write's text" % rv)
+                        if rv == "R i1" and cat != wtxt:
+                            bad.append("success reported for a file that differs from config_write's text")
+                    except (StopIteration, IndexError, ValueError):
+                        bad.append("unexpected transcript: %s" % lines[-5:])
+                    if bad:
+                        res.violations.append(dict(name="transient_%d" % ntr, replay=(
+                            "# property C12 -- %s\n# (harness op writeft: one transient write failure)\n%s" % (bad[0], script[:300] + "...\n"))))
+                        break
+        res.distribution["transient_write_failures"] = ntr
     return res
 
 
